@@ -192,6 +192,8 @@ type RecStorage struct {
 	// returning a non-nil error fails the operation without performing it.
 	Fault func(n int, op Op) error
 	n     int
+	// FullDeviceAccepted counts stores that reported success on a full device.
+	FullDeviceAccepted int
 }
 
 func NewRecStorage(inner nodeenrollment.Storage) *RecStorage {
@@ -232,11 +234,94 @@ func (r *RecStorage) Store(ctx context.Context, m nodeenrollment.MessageWithId) 
 		op.Bytes, _ = proto.MarshalOptions{Deterministic: true}.Marshal(m)
 	}
 	if err := r.pre(op); err != nil {
+		if errors.Is(err, ErrDeviceFull) {
+			return r.storeOnFullDevice(ctx, m, op)
+		}
 		return err
 	}
 	op.Err = r.Inner.Store(ctx, m)
 	r.post(op)
 	return op.Err
+}
+
+// ErrDeviceFull, returned by a Fault hook for a store operation on the file
+// back end, does not fail the operation in the recorder: the operation is
+// handed to the real back end with the record's path pointing at a device that
+// accepts the open and refuses every write (/dev/full, "no space left on
+// device"), i.e. the fault happens inside the operating system. Whatever the
+// back end answers is what the caller sees; the path is put back as it was
+// afterwards (the operation was not performed).
+var ErrDeviceFull = errors.New("device full (operating-system level)")
+
+// FullDeviceAvailable reports whether the OS-level fault can be produced here.
+func FullDeviceAvailable() bool {
+	fi, err := os.Stat("/dev/full")
+	return err == nil && fi.Mode()&os.ModeDevice != 0
+}
+
+// filePathFor finds where the file back end keeps m under base, without
+// assuming its layout: the message is stored into a scratch back end of the
+// same kind and the one file that appears gives the relative path.
+func filePathFor(base string, m nodeenrollment.MessageWithId) (string, error) {
+	dir := ScratchDir("layout")
+	defer os.RemoveAll(dir)
+	s, err := file.New(context.Background(), file.WithBaseDirectory(dir))
+	if err != nil {
+		return "", err
+	}
+	if err := s.Store(context.Background(), m); err != nil {
+		return "", err
+	}
+	var rel string
+	_ = filepath.Walk(dir, func(p string, fi os.FileInfo, err error) error {
+		if err == nil && !fi.IsDir() {
+			rel, _ = filepath.Rel(dir, p)
+		}
+		return nil
+	})
+	if rel == "" {
+		return "", errors.New("layout probe: no file appeared")
+	}
+	return filepath.Join(base, rel), nil
+}
+
+func (r *RecStorage) storeOnFullDevice(ctx context.Context, m nodeenrollment.MessageWithId, op Op) error {
+	fs, ok := r.Inner.(*file.Storage)
+	if !ok || !FullDeviceAvailable() {
+		panic("harness: ErrDeviceFull needs the file back end and /dev/full")
+	}
+	target, err := filePathFor(fs.BaseDir(), m)
+	if err != nil {
+		// the back end refuses this message anyway: let it say so
+		op.Err = r.Inner.Store(ctx, m)
+		r.post(op)
+		return op.Err
+	}
+	prev, prevErr := os.ReadFile(target)
+	_ = os.MkdirAll(filepath.Dir(target), 0o755)
+	_ = os.Remove(target)
+	if err := os.Symlink("/dev/full", target); err != nil {
+		panic(err)
+	}
+	serr := r.Inner.Store(ctx, m)
+	_ = os.Remove(target)
+	if prevErr == nil {
+		_ = os.WriteFile(target, prev, 0o600)
+	}
+	r.mu.Lock()
+	if serr != nil {
+		op.Err = &InjectedError{Inner: serr}
+	} else {
+		// the back end reported success for bytes the device refused
+		op.Err = nil
+		r.FullDeviceAccepted++
+	}
+	r.Ops = append(r.Ops, op)
+	r.mu.Unlock()
+	if serr != nil {
+		return op.Err
+	}
+	return nil
 }
 
 func (r *RecStorage) Load(ctx context.Context, m nodeenrollment.MessageWithId) error {
